@@ -153,6 +153,12 @@ class HTTP(BaseComponent):
         self.fire(write(sock, b'%s%s' % (bytes(res), bytes(headers))))
 
         if req.method == 'HEAD':
+            # no body, but the connection is finished with like any other
+            if res.close:
+                self.fire(close(sock))
+            if sock in self._clients:
+                del self._clients[sock]
+            res.done = True
             return
         if res.stream and res.body:
             try:
